@@ -123,8 +123,10 @@ void run(Ctx &ctx) {
             if (!ctx.mine(item++)) continue;
             int al = (int)strlen(DFA_ACCESS[q]);
             for (int i = 0; i < al; i++) wb[i] = (wchar_t)(unsigned char)DFA_ACCESS[q][i];
-            for (int x = 0; x < 8; x++) {
-                wb[al] = (wchar_t)WIDE_EXTRAS[x];
+            // the eight fixed extras, then for every byte class a code point above 255 whose low byte (and one whose low 16 bits) is the
+            // class representative: a narrowing cast anywhere on the way to a character test would take it for that character
+            for (int x = 0; x < 8 + 2 * DFA_NCLASSES; x++) {
+                wb[al] = x < 8 ? (wchar_t)WIDE_EXTRAS[x] : (wchar_t)((x - 8) & 1 ? 0x30000ul | (unsigned char)DFA_CLASS_REP[(x - 8) / 2] : 0x100ul | (unsigned char)DFA_CLASS_REP[(x - 8) / 2]);
                 for (int w = -1; w < DFA_NW; w++) {
                     int l2 = al + 1;
                     if (w >= 0) for (const char *p = DFA_W[w]; *p; p++) wb[l2++] = (wchar_t)(unsigned char)*p;
